@@ -9,6 +9,7 @@ DEFAULT = dict(
     p_again=0.0,
     p_flush_ctx=0.0,  # flush bodies that run inside `with scoped_value.override(v):` and report get_active_task()
     p_ret_fut=0.0,    # a task that returns a future it never yielded (`return other.asynq(...)`): the future object is its value
+    p_fault_classes=0.0,  # params.fault_classes: scripted faults are TypeError / AssertionError / KeyError / RuntimeError / ValueError instances
     p_dup=0.0,        # one yield that lists the same stored (not yet started) handle twice, with fresh futures in between
     p_manual_ctx=0.0, # contexts entered and left by explicit __enter__/__exit__ calls, in non-nested order
     p_via_cancel=0.0, # a flush body that fails does so by cancelling its own batch and returning normally
@@ -253,6 +254,8 @@ class Gen:
             p["base_errors"] = True
         if c["p_vary_bad"] > 0 and self.r.random() < c["p_vary_bad"]:
             p["vary_bad"] = True
+        if c["p_fault_classes"] > 0 and self.r.random() < c["p_fault_classes"]:
+            p["fault_classes"] = True
         return p
 
     def case(self):
